@@ -54,6 +54,11 @@ RULE = ('corpus programs (snippets covering every node type, generated programs,
         'identifier-bearing constructs (handler names, aliases, attributes, keywords, args, def / class names, targets, match '
         'captures, global / nonlocal names, type variables) whose OLD identifier is a piece of the keywords / text around it '
         '(`except OSError as s`), renamed. '
+        'NON-MODULE ROOTS (every run): statement and expression roots with comments / lines around the node, unchanged / renamed / '
+        'child replaced / second round; judged by CPython parse of the result, tokenize comments, identical source when unchanged. '
+        'OPTIONAL-FIELD FAMILY (every run): 46 scripts adding / removing an optional field (MatchMapping.rest, handler name, MatchAs / '
+        'MatchStar name, asname, cause, msg, return / yield / AnnAssign value, returns, annotation, optional_vars, Slice parts, '
+        'ImportFrom.module, vararg / kwarg, TypeVar bound) next to parenthesised or spaced neighbours. '
         'FOREIGN-PRIMITIVE FAMILY (every run): primitives edited in ANOTHER tree (1 -> True, 0 -> False / 0.0, 30 -> 30.0, True -> 1, '
         'renames, string changes; links stay intact) before a statement, a run of statements, a value expression or container '
         'elements of it are mixed in: 46 scripts; plus the random `foreign_conflate` mode. The two primitive comparison sites '
@@ -510,8 +515,101 @@ def _layout_case(seq, cls, edit, j):
     return (src, fn, ('ClassDef' if cls else 'Call') + {'kw_none': '.keywords', 'kw_name': '.keywords', 'unstar': '.args', 'star': '.args'}[edit])
 
 
+# ---- deterministic family: optional fields added / removed next to parenthesised (or spaced) neighbours ------------------------
+
+def _N(i, ctx=None):
+    return ast.Name(i, ctx or ast.Load())
+
+
+OPT_TEMPLATES = [
+    # (name, source, AST class, field, new value factory | None to delete)
+    ('mm_rest_set_par', 'match m:\n    case {"k": (1 | 2)}: pass', ast.MatchMapping, 'rest', lambda: 'rrr'),
+    ('mm_rest_set_par2', 'match m:\n    case {"k": (x), 3: ((y))}: pass', ast.MatchMapping, 'rest', lambda: 'rrr'),
+    ('mm_rest_set', 'match m:\n    case {"k": x}: pass', ast.MatchMapping, 'rest', lambda: 'rrr'),
+    ('mm_rest_set_empty', 'match m:\n    case {}: pass', ast.MatchMapping, 'rest', lambda: 'rrr'),
+    ('mm_rest_unset_par', 'match m:\n    case {"k": (x), **rrr}: pass', ast.MatchMapping, 'rest', None),
+    ('mm_rest_unset_par_sp', 'match m:\n    case {"k": ( 1 | 2 ) , ** rrr }: pass', ast.MatchMapping, 'rest', None),
+    ('mm_rest_unset', 'match m:\n    case {"k": x, **rrr}: pass', ast.MatchMapping, 'rest', None),
+    ('mm_rest_unset_only', 'match m:\n    case {**rrr}: pass', ast.MatchMapping, 'rest', None),
+    ('handler_name_set_par', 'try:\n    pass\nexcept (OSError):\n    pass', ast.ExceptHandler, 'name', lambda: 'nnn'),
+    ('handler_name_set_tuple', 'try:\n    pass\nexcept (A, B)  :\n    pass', ast.ExceptHandler, 'name', lambda: 'nnn'),
+    ('handler_name_unset_par', 'try:\n    pass\nexcept (OSError) as nnn:\n    pass', ast.ExceptHandler, 'name', None),
+    ('matchas_name_set_par', 'match m:\n    case (1 | 2): pass', ast.MatchAs, 'name', 'wrap'),
+    ('matchas_name_unset_par', 'match m:\n    case (1 | 2) as nnn: pass', ast.MatchAs, 'name', 'unwrap'),
+    ('matchstar_name_unset', 'match m:\n    case [(a), *rrr]: pass', ast.MatchStar, 'name', None),
+    ('matchstar_name_set', 'match m:\n    case [(a), *_]: pass', ast.MatchStar, 'name', lambda: 'rrr'),
+    ('alias_asname_set', 'import a . b', ast.alias, 'asname', lambda: 'ccc'),
+    ('alias_asname_unset', 'from m import (a  as  b)', ast.alias, 'asname', None),
+    ('raise_cause_set', 'raise (eee)', ast.Raise, 'cause', lambda: _N('ccc')),
+    ('raise_cause_unset', 'raise (eee) from (ccc)', ast.Raise, 'cause', None),
+    ('assert_msg_set', 'assert (ttt)', ast.Assert, 'msg', lambda: _N('mmm')),
+    ('assert_msg_unset', 'assert (ttt), (mmm)', ast.Assert, 'msg', None),
+    ('return_value_set', 'def f():\n    return  # c', ast.Return, 'value', lambda: _N('vvv')),
+    ('return_value_unset', 'def f():\n    return (vvv)  # c', ast.Return, 'value', None),
+    ('annassign_value_set', 'x: (int)  # c', ast.AnnAssign, 'value', lambda: _N('vvv')),
+    ('annassign_value_unset', 'x: (int) = (vvv)  # c', ast.AnnAssign, 'value', None),
+    ('returns_set', 'def f(a=(1)): pass', ast.FunctionDef, 'returns', lambda: _N('rrr')),
+    ('returns_unset', 'def f(a=(1)) -> (rrr): pass', ast.FunctionDef, 'returns', None),
+    ('arg_annotation_set', 'def f(aaa, bbb=(1)): pass', ast.arg, 'annotation', lambda: _N('int')),
+    ('arg_annotation_unset', 'def f(aaa: (int), bbb=(1)): pass', ast.arg, 'annotation', None),
+    ('withitem_vars_set', 'with (ccc): pass', ast.withitem, 'optional_vars', lambda: _N('vvv', ast.Store())),
+    ('withitem_vars_unset', 'with (ccc) as vvv: pass', ast.withitem, 'optional_vars', None),
+    ('slice_step_set', 'x[(a):(b)]', ast.Slice, 'step', lambda: _N('sss')),
+    ('slice_step_unset', 'x[(a):(b):(sss)]', ast.Slice, 'step', None),
+    ('slice_lower_unset', 'x[(a):(b)]', ast.Slice, 'lower', None),
+    ('slice_upper_set', 'x[(a):]', ast.Slice, 'upper', lambda: _N('bbb')),
+    ('yield_value_unset', 'def g():\n    yyy = yield (vvv)', ast.Yield, 'value', None),
+    ('yield_value_set', 'def g():\n    yyy = (yield)', ast.Yield, 'value', lambda: _N('vvv')),
+    ('importfrom_module_set', 'from . import (aaa)', ast.ImportFrom, 'module', lambda: 'mmm'),
+    ('importfrom_module_unset', 'from .mmm import (aaa)', ast.ImportFrom, 'module', None),
+    ('vararg_set', 'def f(a=(1)): pass', ast.arguments, 'vararg', lambda: ast.arg('vvv', None)),
+    ('vararg_unset', 'def f(a=(1), *vvv): pass', ast.arguments, 'vararg', None),
+    ('kwarg_set', 'def f(a=(1)): pass', ast.arguments, 'kwarg', lambda: ast.arg('kkk', None)),
+    ('kwarg_unset', 'def f(a=(1), **kkk): pass', ast.arguments, 'kwarg', None),
+    ('lambda_kwarg_unset', 'l = lambda a=(1), **kkk: 0', ast.arguments, 'kwarg', None),
+    ('typevar_bound_set', 'def f[TTT](): pass', ast.TypeVar, 'bound', lambda: _N('int')),
+    ('typevar_bound_unset', 'def f[TTT: (int)](): pass', ast.TypeVar, 'bound', None),
+    # not included: `except (E) as n:` -> `except:` (type and name removed together): the put of type=None removes the name as a
+    # side effect, so the real trace has one op where the model (which predicts the slot from the mark) has two; result is right
+]
+
+
+def _opt_case(name, src, cls, field, val):
+    def fn(a, FST):
+        for n in ast.walk(a):
+            if type(n) is cls:
+                if field == 'both':                         # `except (E) as n:` -> `except:`
+                    n.name = None
+                    n.type = None
+                elif val == 'wrap':                         # pattern P -> P as nnn
+                    pass
+                elif val == 'unwrap':
+                    n.name = None if n.pattern is None else n.name
+                    if n.pattern is not None:               # `(1 | 2) as nnn` -> the inner pattern takes its place
+                        for p in ast.walk(a):
+                            for f_, v in ast.iter_fields(p):
+                                if v is n:
+                                    setattr(p, f_, n.pattern)
+                                    return
+                                if isinstance(v, list) and any(x is n for x in v):
+                                    v[[x is n for x in v].index(True)] = n.pattern
+                                    return
+                else:
+                    setattr(n, field, val() if val is not None else None)
+                return
+        if val == 'wrap':                                   # no MatchAs yet: wrap the case pattern
+            c = a.body[0].cases[0]
+            c.pattern = ast.MatchAs(c.pattern, 'nnn')
+            return
+        raise RuntimeError('no site')
+
+    return (src, fn, f'{cls.__name__}.{field}')
+
+
 def _family():
     fam = {}
+    for name, src, cls, field, val in OPT_TEMPLATES:
+        fam[f'opt_{name}'] = _opt_case(name, src, cls, field, val)
     for seq in _arg_layouts():
         for cls in (False, True):
             for edit, c in (('kw_none', 'k'), ('kw_name', 'd'), ('unstar', 's'), ('star', 'p')):
@@ -606,7 +704,83 @@ def _custom_copy_keeps_mark():
     return [] if o.src == 'x = 2  # c' else [('structure-differs', repr(o.src))]
 
 
+ROOT_SRCS = {
+    # root that is NOT a Module: (source with comments / lines around the node, FST mode, CPython parse of the result)
+    'assign': ('# lead\nx = a + b  # tr\n# after', None),
+    'funcdef': ('# lead\n\n@deco  # d\ndef f(a):  # h\n    # inner\n    return a  # r\n# after\n', None),
+    'ifstmt': ('# lead\nif a:  # c1\n    b = a  # c2\nelse:\n    pass\n\n# after', None),
+    'binop': ('# c\n(a +  # in\n b)  # t\n# z', 'expr'),
+    'call': ('# c\ncall(a, b)  # t\n# z', 'expr'),
+    'listexpr': ('# c\n[a,  # one\n b]\n# z', 'expr'),
+}
+
+
+def _root_edits():
+    def rename(t):
+        for n in ast.walk(t):
+            if isinstance(n, ast.Name) and n.id == 'a':
+                n.id = 'renamed'
+
+    def replace_b(t):
+        for n in ast.walk(t):
+            for f_, v in ast.iter_fields(n):
+                if isinstance(v, ast.Name) and v.id == 'b' and isinstance(v.ctx, ast.Load):
+                    setattr(n, f_, ast.Call(ast.Name('g', ast.Load()), [], []))
+                    return
+                if isinstance(v, list):
+                    for i, x in enumerate(v):
+                        if isinstance(x, ast.Name) and x.id == 'b' and isinstance(x.ctx, ast.Load):
+                            v[i] = ast.Call(ast.Name('g', ast.Load()), [], [])
+                            return
+
+    return {'nochange': lambda t: None, 'rename': rename, 'replace': replace_b}
+
+
+def _comments(src):
+    import io
+    import tokenize
+    try:
+        return [t.string for t in tokenize.generate_tokens(io.StringIO(src + '\n').readline) if t.type == tokenize.COMMENT]
+    except Exception:
+        return None
+
+
+def _custom_root(kind, edit, rounds=1):
+    """mark / edit / reconcile on a root that is a statement or an expression; judges: CPython parse of the returned source ==
+    the edited AST, every comment token (tokenize) of the marked source still there in order, no change => identical source"""
+    def run():
+        from fst import FST
+        src, mode = ROOT_SRCS[kind]
+        f = FST(src, mode) if mode else FST(src)
+        for rd in range(rounds):
+            before = f.src
+            f.mark()
+            _root_edits()[edit if rd == 0 else 'nochange'](f.a)
+            want = L.norm_dump(f.a)
+            try:
+                o = f.reconcile()
+            except Exception as e:
+                return [('raised:' + type(e).__name__, str(e)[:120])]
+            try:
+                t = ast.parse(o.src, mode='eval').body if mode == 'expr' else ast.parse(o.src).body[0]
+            except SyntaxError as e:
+                return [('invalid-tree', f'source no longer parses: {e}: {o.src!r}')]
+            if L.norm_dump(t) != want or L.norm_dump(o.a) != want:
+                return [('structure-differs', repr(o.src)[:200])]
+            if _comments(o.src) != _comments(before):
+                return [('comments-lost', f'{_comments(before)} -> {_comments(o.src)}: {o.src!r}'[:300])]
+            if (edit == 'nochange' or rd > 0) and o.src != before:
+                return [('nochange-src-differs', f'{before!r} -> {o.src!r}'[:300])]
+            f = o
+        return []
+    return run
+
+
 CUSTOM = {'copy_keeps_mark': (_custom_copy_keeps_mark, 'FST.copy')}
+for _k in ROOT_SRCS:
+    for _e in ('nochange', 'rename', 'replace'):
+        CUSTOM[f'root_{_k}_{_e}'] = (_custom_root(_k, _e), 'non-Module root')
+    CUSTOM[f'root_{_k}_rename_2rounds'] = (_custom_root(_k, 'rename', 2), 'non-Module root')
 
 
 def _w_kw_none(a, FST):
